@@ -338,9 +338,18 @@ pub fn name_guarded() -> bool {
     std::env::var("VERIF_C04_NAME_GUARD").map(|v| v.contains("first")).unwrap_or(false)
 }
 
-/// the `<headerLen>` token of the op lines: `14` or `14+g` (guarded)
+/// what `try_fast_get` / `try_fast_set` answer to a frame that is not complete yet: `NeedMoreData`
+/// (the code as it is) or `NotFastPath` (the prepared fix `fixes-conn-s4`: an incomplete or unusual
+/// frame is left to the generic parser; with it come the LF / UTF-8 tests of the recognisers, the
+/// execution of collected commands below `batch_threshold` and the ACL test of the batching gate).
+/// Read from the SOURCE by ./check (`VERIF_C04_INCOMPLETE`) — the model has the flag `repaired`
+pub fn repaired() -> bool {
+    std::env::var("VERIF_C04_INCOMPLETE").map(|v| v.contains("NotFastPath")).unwrap_or(false)
+}
+
+/// the `<headerLen>` token of the op lines: `14`, then `+g` (guarded) and / or `+r` (repaired)
 pub fn hl_token() -> String {
-    if name_guarded() { format!("{}+g", header_len()) } else { header_len().to_string() }
+    format!("{}{}{}", header_len(), if name_guarded() { "+g" } else { "" }, if repaired() { "+r" } else { "" })
 }
 
 /// `str::split_whitespace` yields nothing for this command name (after from_utf8_lossy / to_uppercase)
@@ -520,6 +529,9 @@ fn parse_usize_spec(b: &[u8]) -> Option<usize> {
 /// contains no CR and is a usize (optional '+'), and key has that many bytes.  Returns (key, total).
 /// Every member is malformed RESP: a well-formed frame has a digit at offset 14, never '$'.
 pub fn lookalike_get(buf: &[u8], h: usize) -> Option<(Vec<u8>, usize)> {
+    if repaired() {
+        return None; // the repaired recognisers take decodable frames only: the class is empty (Lean: repaired_recognisers_sound)
+    }
     if !(buf.starts_with(b"*2\r\n$3\r\nGET\r\n") || buf.starts_with(b"*2\r\n$3\r\nget\r\n")) || buf.len() < h + 1 || buf[h] != b'$' {
         return None;
     }
@@ -535,6 +547,9 @@ pub fn lookalike_get(buf: &[u8], h: usize) -> Option<(Vec<u8>, usize)> {
 
 /// the SET class: hdr ++ [x,'$'] ++ d1 ++ ['\r',y1] ++ key ++ [z1,z2] ++ ['$'] ++ d2 ++ ['\r',y2] ++ val ++ [w1,w2] ++ …
 pub fn lookalike_set(buf: &[u8], h: usize) -> Option<(Vec<u8>, Vec<u8>, usize)> {
+    if repaired() {
+        return None; // the repaired recognisers take decodable frames only: the class is empty (Lean: repaired_recognisers_sound)
+    }
     if !(buf.starts_with(b"*3\r\n$3\r\nSET\r\n") || buf.starts_with(b"*3\r\n$3\r\nset\r\n")) || buf.len() < h + 1 || buf[h] != b'$' {
         return None;
     }
@@ -560,6 +575,9 @@ pub fn lookalike_set(buf: &[u8], h: usize) -> Option<(Vec<u8>, Vec<u8>, usize)> 
 /// the RESP grammar already rejects the bytes — same cause, the reply is withheld instead of wrong.
 /// True iff `buf` is not (yet) a member but the GET recogniser with HEADER_LEN = h waits for more.
 pub fn lookalike_prefix_get(buf: &[u8], h: usize) -> bool {
+    if repaired() {
+        return false; // a repaired recogniser never waits
+    }
     if !(buf.starts_with(b"*2\r\n$3\r\nGET\r\n") || buf.starts_with(b"*2\r\n$3\r\nget\r\n")) || buf.len() < h + 1 || buf[h] != b'$' {
         return false;
     }
@@ -578,6 +596,9 @@ pub fn lookalike_prefix_get(buf: &[u8], h: usize) -> bool {
 }
 
 pub fn lookalike_prefix_set(buf: &[u8], h: usize) -> bool {
+    if repaired() {
+        return false; // a repaired recogniser never waits
+    }
     if !(buf.starts_with(b"*3\r\n$3\r\nSET\r\n") || buf.starts_with(b"*3\r\n$3\r\nset\r\n")) || buf.len() < h + 1 || buf[h] != b'$' {
         return false;
     }
@@ -1025,7 +1046,9 @@ fn source_enumeration(cx: &mut Cx) -> Vec<String> {
     };
     let mut table = serde_json::Map::new();
     // 1. arms of try_execute_command
-    let body = src.split("async fn try_execute_command").nth(1).and_then(|r| r.split("fn execute_connection_level").next()).unwrap_or("");
+    // (function bodies are cut out by NAME with brace matching: the order of the functions in the file,
+    // their visibility and attributes do not matter)
+    let body = crate::c15::fn_text(&src, "try_execute_command").unwrap_or("");
     let mut variants: Vec<String> = Vec::new();
     for line in body.lines() {
         let mut rest = line;
@@ -1053,7 +1076,7 @@ fn source_enumeration(cx: &mut Cx) -> Vec<String> {
         }
     }
     // 2. literals of is_stub_command / handle_stub_command
-    let stub_body = src.split("fn is_stub_command").nth(1).and_then(|r| r.split("fn collect_get_keys").next()).unwrap_or("");
+    let stub_body = format!("{}\n{}", crate::c15::fn_text(&src, "is_stub_command").unwrap_or(""), crate::c15::fn_text(&src, "handle_stub_command").unwrap_or(""));
     let mut lits: Vec<String> = Vec::new();
     for line in stub_body.lines() {
         let t = line.trim_start();
@@ -1085,14 +1108,20 @@ fn source_enumeration(cx: &mut Cx) -> Vec<String> {
             cx.out.violation(&format!("C04:coverage:stub-not-driven:{}", l.trim()), "is_stub_command / handle_stub_command mention a name for which the harness has no frame (harness/src/c04.rs STUBS)", json!({"literal": l}));
         }
     }
-    // 3. functions
+    // 3. functions.  Only `new` / `run` / `from_perf_config` / the hooks are public: every private function is
+    //    reachable through `run` alone, i.e. through the bytes a case sends — a new or renamed PRIVATE helper
+    //    is no new entry point (it is listed, not a violation); a new PUBLIC function is
     let mut fns: Vec<String> = Vec::new();
+    let mut public: Vec<String> = Vec::new();
     for line in src.lines() {
         let t = line.trim_start();
-        for pre in ["pub async fn ", "async fn ", "pub fn ", "fn "] {
+        for pre in ["pub async fn ", "pub fn ", "pub(crate) fn ", "pub(crate) async fn ", "async fn ", "fn "] {
             if let Some(r) = t.strip_prefix(pre) {
                 let name: String = r.chars().take_while(|c| c.is_alphanumeric() || *c == '_').collect();
                 if !name.is_empty() && !fns.contains(&name) {
+                    if pre.starts_with("pub") {
+                        public.push(name.clone());
+                    }
                     fns.push(name);
                 }
                 break;
@@ -1107,9 +1136,12 @@ fn source_enumeration(cx: &mut Cx) -> Vec<String> {
             Some(c) => {
                 table.insert(format!("fn {}", f), json!(c));
             }
+            None if !public.contains(f) => {
+                table.insert(format!("fn {}", f), json!("private function not in the harness's table: reachable only through run(), i.e. through the bytes of the cases (correspondence)"));
+            }
             None => {
                 table.insert(format!("fn {}", f), json!("UNACCOUNTED"));
-                cx.out.violation(&format!("C04:coverage:fn-not-accounted:{}", f), "a function of connection_optimized.rs is neither driven nor listed with the reason why not (harness/src/c04.rs fn_coverage)", json!({"fn": f}));
+                cx.out.violation(&format!("C04:coverage:fn-not-accounted:{}", f), "a PUBLIC function of connection_optimized.rs is neither driven nor listed with the reason why not (harness/src/c04.rs fn_coverage)", json!({"fn": f}));
             }
         }
     }
@@ -2133,6 +2165,129 @@ fn boundary_corpus(cx: &mut Cx) {
     }
 }
 
+/// frames that are well-formed at the offsets where a recogniser with the RIGHT header length (13)
+/// looks, or one byte away from it: the places where a recogniser and the generic decoder can disagree
+/// (sign / leading zeros of a length, a CR that is not followed by LF, the unchecked trailer of a bulk
+/// string, lengths at the i64 / usize limits, keys that are not UTF-8).  The code as it is sends all of
+/// them down the generic path (HEADER_LEN = 14: the recognisers never see a `$` there); a repaired
+/// recogniser must agree with the decoder on every one of them (Lean: repaired_recognisers_sound,
+/// repaired_transparent).  Judged by the model (correspondence) and, for the key cases, by the
+/// well-formed oracle.
+fn recogniser_corpus(cx: &mut Cx) {
+    let ping = frame(&[b"PING"]);
+    let cfgs = [
+        Cfg::default_like(),
+        Cfg { min_pipeline: 0, batch_threshold: 1, read_size: 8192, max_buffer: 1_000_000 },
+        Cfg { min_pipeline: 0, batch_threshold: 3, read_size: 8192, max_buffer: 1_000_000 },
+        Cfg { min_pipeline: 1 << 40, batch_threshold: 2, read_size: 8192, max_buffer: 1_000_000 },
+    ];
+    let mut frames: Vec<Vec<u8>> = vec![
+        b"*2\r\n$3\r\nGET\r\n$1\rXk\r\n".to_vec(),                 // CR not followed by LF in the key length line
+        b"*2\r\n$3\r\nget\r\n$1\r\rk\r\n".to_vec(),
+        b"*2\r\n$3\r\nGET\r\n$1\r".to_vec(),                      // … and the CR is the last byte
+        b"*2\r\n$3\r\nGET\r\n$1\r\nkXY".to_vec(),                  // the trailer of a bulk string is never looked at
+        b"*2\r\n$3\r\nGET\r\n$1\r\nk\r".to_vec(),
+        b"*2\r\n$3\r\nGET\r\n$+1\r\nk\r\n".to_vec(),               // sign, leading zeros
+        b"*2\r\n$3\r\nGET\r\n$01\r\nk\r\n".to_vec(),
+        b"*2\r\n$3\r\nGET\r\n$-0\r\n\r\n".to_vec(),
+        b"*2\r\n$3\r\nGET\r\n$0\r\n\r\n".to_vec(),
+        b"*2\r\n$3\r\nGET\r\n$ 1\r\nk\r\n".to_vec(),
+        b"*2\r\n$3\r\nGET\r\n$\r\nk\r\n".to_vec(),
+        b"*2\r\n$3\r\nGET\r\n$-1\r\n".to_vec(),                   // null bulk as a key
+        b"*2\r\n$3\r\nGET\r\n:1\r\n".to_vec(),
+        b"*2\r\n$3\r\nGET\r\n".to_vec(),                          // the bare header
+        b"*2\r\n$3\r\nGET\r\n$".to_vec(),
+        b"*3\r\n$3\r\nSET\r\n$1\rXk\r\n$1\r\nv\r\n".to_vec(),
+        b"*3\r\n$3\r\nSET\r\n$1\r\nk\r\n$1\rXv\r\n".to_vec(),
+        b"*3\r\n$3\r\nset\r\n$1\r\nk\r\n$1\r".to_vec(),
+        b"*3\r\n$3\r\nSET\r\n$1\r\nkXY$1\r\nv\r\n".to_vec(),          // unchecked trailer of the key
+        b"*3\r\n$3\r\nSET\r\n$1\r\nk\r\n$1\r\nvXY".to_vec(),
+        b"*3\r\n$3\r\nSET\r\n$1\r\nk\r\nX1\r\nv\r\n".to_vec(),          // no `$` where the value begins
+        b"*3\r\n$3\r\nSET\r\n$+1\r\nk\r\n$+01\r\nv\r\n".to_vec(),
+        b"*3\r\n$3\r\nSET\r\n$1\r\nk\r\n$-1\r\n".to_vec(),
+        b"*3\r\n$3\r\nSET\r\n$1\r\nk\r\n".to_vec(),
+        b"*3\r\n$3\r\nSET\r\n$1\r\nk\r\n$".to_vec(),
+    ];
+    for len in [usize::MAX, usize::MAX - 18, (1usize << 63) + 1, 1usize << 63, (1usize << 63) - 1, 1usize << 62, 536_870_912, 536_870_913] {
+        frames.push(format!("*2\r\n$3\r\nGET\r\n${}\r\nab", len).into_bytes());
+        frames.push(format!("*3\r\n$3\r\nSET\r\n${}\r\nab", len).into_bytes());
+        frames.push(format!("*3\r\n$3\r\nSET\r\n$1\r\nk\r\n${}\r\nab", len).into_bytes());
+    }
+    for bad in &frames {
+        for cfg in &cfgs {
+            // (a frame the decoder rejects must be answered with an error: the malformed oracle, which also
+            // writes the op for the correspondence)
+            check_malformed(cx, cfg, &[], bad, "near-wellformed", &[], &[bad.clone()], "recogniser:alone");
+            check_malformed(cx, cfg, &[vec![b"PING".to_vec()]], bad, "near-wellformed", &[], &[ping.clone(), bad.clone()], "recogniser:after-ping");
+            let mut s = bad.clone();
+            for _ in 0..3 {
+                s.extend_from_slice(&ping);
+            }
+            corr_only(cx, cfg, &[s.clone()], "recogniser:near-wellformed:then-pings-same-read");
+            corr_only(cx, cfg, &[ping.clone(), bad.clone(), ping.clone()], "recogniser:near-wellformed:between-pings");
+            // two copies and a well-formed GET in front: the collectors see a run
+            let mut run = frame(&[b"GET", b"k"]);
+            run.extend_from_slice(&frame(&[b"get", b"key:2"]));
+            run.extend_from_slice(bad);
+            run.extend_from_slice(&frame(&[b"GET", b"k"]));
+            corr_only(cx, cfg, &[run], "recogniser:near-wellformed:inside-a-run");
+        }
+    }
+    // every cut of a few of them (a recogniser must not decide incompleteness differently from the decoder)
+    for bad in [&b"*2\r\n$3\r\nGET\r\n$1\rXk\r\n"[..], b"*2\r\n$3\r\nGET\r\n$+01\r\nk\r\n", b"*3\r\n$3\r\nSET\r\n$1\r\nk\r\n$1\rXv\r\n", b"*3\r\n$3\r\nset\r\n$1\r\nkXY$2\r\nvv\r\n", b"*2\r\n$3\r\nGET\r\n$9223372036854775808\r\nab"] {
+        for c in 1..bad.len() {
+            for cfg in &cfgs[..2] {
+                let mut segs = vec![ping.clone()];
+                segs.extend(cut(bad, &[c]));
+                segs.push(ping.clone());
+                corr_only(cx, cfg, &segs, "recogniser:near-wellformed:cut-at-every-byte");
+            }
+        }
+    }
+    // keys that are not UTF-8 (the shards take a key as &str; the generic path converts lossily): the
+    // same key through GET / get (recognised) and Get (never recognised) must name the same entry
+    let keys: [&[u8]; 12] = [b"\xff", b"k\xff", b"\xc3\x28", b"\xe2\x82", b"\xed\xa0\x80", b"\xf4\x90\x80\x80", b"\xc0\x80", b"\xf0\x82\x82\xac",
+        "\u{e9}".as_bytes(), "\u{20ac}".as_bytes(), "\u{1f600}".as_bytes(), b"a\x80"];
+    for key in keys {
+        let cmds: Vec<Vec<Vec<u8>>> = vec![
+            vec![b"SET".to_vec(), key.to_vec(), b"v1".to_vec()],
+            vec![b"GET".to_vec(), key.to_vec()],
+            vec![b"get".to_vec(), key.to_vec()],
+            vec![b"Get".to_vec(), key.to_vec()],
+            vec![b"Set".to_vec(), key.to_vec(), b"v2".to_vec()],
+            vec![b"GET".to_vec(), key.to_vec()],
+            vec![b"set".to_vec(), key.to_vec(), b"v3".to_vec()],
+            vec![b"gEt".to_vec(), key.to_vec()],
+        ];
+        let frames = cmd_frames(&cmds);
+        let stream: Vec<u8> = frames.concat();
+        for cfg in &cfgs {
+            check_wellformed(cx, cfg, &cmds, &[stream.clone()], "recogniser:non-utf8-key:one-read");
+            check_wellformed(cx, cfg, &cmds, &frames, "recogniser:non-utf8-key:per-command");
+        }
+    }
+    // long mixed runs around the thresholds: GET x5, SET x4, PING, GET x2 in ONE read
+    let mut cmds: Vec<Vec<Vec<u8>>> = Vec::new();
+    for i in 0..5 {
+        cmds.push(vec![if i % 2 == 0 { b"GET".to_vec() } else { b"get".to_vec() }, KEYS[i % 3].to_vec()]);
+    }
+    for i in 0..4 {
+        cmds.push(vec![if i % 2 == 0 { b"SET".to_vec() } else { b"set".to_vec() }, KEYS[i % 3].to_vec(), format!("w{}", i).into_bytes()]);
+    }
+    cmds.push(vec![b"PING".to_vec()]);
+    cmds.push(vec![b"GET".to_vec(), KEYS[0].to_vec()]);
+    cmds.push(vec![b"GET".to_vec(), KEYS[1].to_vec()]);
+    let frames = cmd_frames(&cmds);
+    let stream: Vec<u8> = frames.concat();
+    let after_gets: usize = frames[5..].iter().map(|f| f.len()).sum();
+    for thr in [0usize, 1, 2, 4, 5, 6] {
+        for mp in [0usize, 60, after_gets - 1, after_gets, after_gets + 1, stream.len() - 1, stream.len(), stream.len() + 1] {
+            let cfg = Cfg { min_pipeline: mp, batch_threshold: thr, read_size: 8192, max_buffer: 1_000_000 };
+            check_wellformed(cx, &cfg, &cmds, &[stream.clone()], "recogniser:mixed-run:thresholds-and-gates");
+        }
+    }
+}
+
 fn fixed_corpus(cx: &mut Cx) {
     let d = Cfg::default_like();
     let ping = frame(&[b"PING"]);
@@ -2243,6 +2398,8 @@ fn run_inner(a: &Args) {
     lap("deep");
     boundary_corpus(&mut cx);
     lap("boundary");
+    recogniser_corpus(&mut cx);
+    lap("recogniser");
     overflow_corpus(&mut cx);
     pooled_corpus(&mut cx);
     write_corpus(&mut cx);
